@@ -401,6 +401,9 @@ def run(ctx):
     ctx.absorb(xproc.run_family(ctx, 'vmon.checks.c01', 'x64', env={'JAX_ENABLE_X64': '1'}))
 
 
+
 if __name__ == '__main__':
   from vmon import xproc as _xproc
   _xproc.child_main(_xproc.family_handler(__name__))
+
+TECHNIQUE += '; the same histories in a fresh interpreter under JAX_ENABLE_X64=1 (float64 tolerance); differential of the optimizer wrappers against optax'
